@@ -215,3 +215,308 @@ Proof.
   induction l as [|x t IH]; intros H; cbn [flat_map length]; auto.
   rewrite app_length, (H x) by now left. rewrite IH; [lia|]. intros; apply H; now right.
 Qed.
+
+(* ---------- the lane theorem ---------- *)
+Lemma mapM_ok {A B} (f : A -> res B) (h : A -> B) l : (forall x, In x l -> f x = Ok (h x)) -> mapM f l = Ok (map h l).
+Proof.
+  induction l as [|x t IH]; intros H; cbn [mapM map]; [reflexivity|].
+  rewrite (H x) by now left. cbn [bind]. rewrite IH by (intros; apply H; now right). reflexivity.
+Qed.
+
+Lemma norm_nat_of_nat n k : norm_nat n (Z.of_nat k) = k.
+Proof. unfold norm_nat. destruct (Z.ltb_spec (Z.of_nat k) 0); lia. Qed.
+
+Lemma axis_ok_of_nat n k : k < n -> axis_ok n (Z.of_nat k).
+Proof. unfold axis_ok. lia. Qed.
+
+Section AlongSpec.
+Context {T U : Type} (dt : T) (du : U).
+
+(* the 1-D lane of `a` along axis `ax` at the position `rest` of the remaining axes *)
+Definition lane (a : arr T) (ax : nat) (rest : list nat) : arr T :=
+  mk (map (fun k => get dt a (insert_nth rest ax k)) (seq 0 (nth ax (shape a) 0))) [nth ax (shape a) 0].
+
+Lemma move_to_last (a : arr T) ax :
+  wf a -> ax < ndim a -> (Z.of_nat (ndim a) < two64)%Z ->
+  exists mv, moveaxis dt a [Z.of_nat ax] [Z.of_nat (ndim a - 1)] = Ok mv /\ wf mv /\
+     shape mv = remove_nth (shape a) ax ++ [nth ax (shape a) 0] /\
+     forall rest k, in_range (remove_nth (shape a) ax) rest -> k < nth ax (shape a) 0 ->
+        get dt mv (rest ++ [k]) = get dt a (insert_nth rest ax k).
+Proof.
+  intros W H B. rewrite moveaxis_single_ok by (auto; apply axis_ok_of_nat; lia).
+  rewrite !norm_nat_of_nat.
+  destruct (transpose_perm_ok dt a (rollaxis_order (ndim a) ax (ndim a - 1)) W ltac:(lia)
+              (rollaxis_order_is_perm _ _ _ H)) as (r & E & Wr & Sr & G & _).
+  exists r. split; [exact E|]. split; [exact Wr|]. unfold ndim in *. split.
+  - rewrite Sr. apply pick_to_last. exact H.
+  - intros rest k Hr Hk.
+    assert (length rest = length (shape a) - 1) as Lr by (apply in_range_length in Hr; rewrite Hr; apply remove_nth_length; exact H).
+    assert (in_range (shape a) (insert_nth rest ax k)) as IR.
+    { rewrite <- (insert_remove_nth (shape a) ax 0 H) at 1. apply in_range_insert; auto.
+      rewrite remove_nth_length by auto. lia. }
+    rewrite <- (G _ IR). f_equal.
+    assert (length (insert_nth rest ax k) = length (shape a)) as Li by (rewrite insert_nth_length; lia).
+    rewrite <- Li. rewrite pick_to_last by lia.
+    rewrite remove_insert_nth' by lia. rewrite nth_insert_nth_eq by lia. reflexivity.
+Qed.
+
+Lemma move_from_last (b : arr U) ax :
+  wf b -> ax < ndim b -> (Z.of_nat (ndim b) < two64)%Z ->
+  exists r, (if ax =? 0 then rollaxis du b (Z.of_nat (ndim b - 1)) None
+             else moveaxis du b [Z.of_nat (ndim b - 1)] [Z.of_nat ax]) = Ok r /\ wf r /\
+     shape r = insert_nth (removelast (shape b)) ax (last (shape b) 0) /\
+     forall c', in_range (shape b) c' -> get du r (insert_nth (removelast c') ax (last c' 0)) = get du b c'.
+Proof.
+  intros W H B.
+  assert ((if ax =? 0 then rollaxis du b (Z.of_nat (ndim b - 1)) None
+           else moveaxis du b [Z.of_nat (ndim b - 1)] [Z.of_nat ax]) =
+          transpose_perm du b (rollaxis_order (ndim b) (ndim b - 1) ax)) as ->.
+  { destruct (Nat.eqb_spec ax 0) as [->|N].
+    - rewrite rollaxis_default.
+      destruct (rollaxis_ok du b (Z.of_nat (ndim b - 1)) 0%Z B ltac:(apply axis_ok_of_nat; lia) ltac:(unfold axis_ok; lia)) as [E _].
+      rewrite E, norm_nat_of_nat. reflexivity.
+    - rewrite moveaxis_single_ok by (auto; apply axis_ok_of_nat; lia). now rewrite !norm_nat_of_nat. }
+  destruct (transpose_perm_ok du b (rollaxis_order (ndim b) (ndim b - 1) ax) W ltac:(lia)
+              (rollaxis_order_is_perm (ndim b) (ndim b - 1) ax ltac:(lia))) as (r & E & Wr & Sr & G & _).
+  exists r. split; [exact E|]. split; [exact Wr|]. unfold ndim in *. split.
+  - rewrite Sr. apply pick_from_last; lia.
+  - intros c' Hc. rewrite <- (G _ Hc). f_equal. pose proof (in_range_length _ _ Hc) as Lc. rewrite <- Lc.
+    symmetry. apply pick_from_last; lia.
+Qed.
+
+End AlongSpec.
+
+Lemma nth_map_seq {A} (f : nat -> A) n k d : k < n -> nth k (map f (seq 0 n)) d = f k.
+Proof.
+  intros H. rewrite (nth_indep _ d (f 0)) by (rewrite map_length, seq_length; exact H).
+  rewrite map_nth, seq_nth by exact H. reflexivity.
+Qed.
+
+Lemma in_range_insert_nth_lt rs c ax m : ax <= length rs -> in_range (insert_nth rs ax m) c -> nth ax c 0 < m.
+Proof.
+  revert c ax; induction rs as [|h t IH]; intros [|i c] [|ax] Q Hc; cbn in *; try lia; try tauto.
+  destruct Hc as [_ Hc]. apply (IH c ax); [lia | exact Hc].
+Qed.
+
+Section AlongMain.
+Context {T U : Type} (dt : T) (du : U).
+
+(* the j-th chunk of the moved data is the lane at the j-th position (row-major) of the remaining axes *)
+Lemma chunk_is_lane (a mv : arr T) ax j :
+  wf mv -> shape mv = remove_nth (shape a) ax ++ [nth ax (shape a) 0] ->
+  (forall rest k, in_range (remove_nth (shape a) ax) rest -> k < nth ax (shape a) 0 ->
+        get dt mv (rest ++ [k]) = get dt a (insert_nth rest ax k)) ->
+  j < prod (remove_nth (shape a) ax) ->
+  chunk (elems mv) (nth ax (shape a) 0) j = lane dt a ax (unravel (remove_nth (shape a) ax) j).
+Proof.
+  set (L := nth ax (shape a) 0). set (rs := remove_nth (shape a) ax).
+  intros W S G Hj. unfold chunk, lane. fold L. f_equal.
+  assert (length (elems mv) = prod rs * L) as Len by (rewrite W, S, prod_app; cbn; lia).
+  apply (nth_ext _ _ dt dt).
+  - rewrite firstn_length, skipn_length, map_length, seq_length. nia.
+  - intros k Hk. rewrite firstn_length, skipn_length in Hk. assert (k < L) as HkL by lia.
+    rewrite nth_firstn_lt by exact HkL. rewrite nth_skipn_add. rewrite nth_map_seq by exact HkL.
+    rewrite <- G by (auto; apply unravel_in_range; exact Hj).
+    unfold get. rewrite S. rewrite flat_snoc by (apply in_range_length, unravel_in_range; exact Hj).
+    rewrite flat_unravel by exact Hj. reflexivity.
+Qed.
+
+(* THE LANE THEOREM.  For a well-formed array with positive extents and an axis in range, if the lane function
+   succeeds on every 1-D lane of length L with a result of m elements, then apply_along_axis succeeds, the result has
+   the input's shape with extent m at `ax`, and the element at coordinate c is element c[ax] of the result computed from
+   exactly the lane of the input at the remaining coordinates of c. *)
+Theorem apply_along_axis_spec (a : arr T) ax (f : arr T -> res (arr U)) (fr : arr T -> arr U) m :
+  wf a -> pos_shape (shape a) -> ax < ndim a -> (Z.of_nat (ndim a) < two64)%Z ->
+  (forall ln, wf ln -> shape ln = [nth ax (shape a) 0] -> f ln = Ok (fr ln) /\ len (fr ln) = m) ->
+  exists R, apply_along_axis dt du a ax f = Ok R /\ wf R /\ shape R = upd (shape a) ax m /\
+    forall c, in_range (shape R) c ->
+      get du R c = nth (nth ax c 0) (elems (fr (lane dt a ax (remove_nth c ax)))) du.
+Proof.
+  intros W P H B F. set (L := nth ax (shape a) 0) in *. set (rs := remove_nth (shape a) ax).
+  assert (0 < L) as HL by (apply pos_shape_nth; auto).
+  assert (0 < prod rs) as Hp by (apply pos_shape_prod, pos_shape_remove, P).
+  assert (length rs = ndim a - 1) as Lrs by (apply remove_nth_length; exact H).
+  unfold apply_along_axis. destruct (Nat.ltb_spec ax (ndim a)); [|lia]. cbn [guard bind].
+  destruct (move_to_last dt a ax W H B) as (mv & Em & Wm & Sm & Gm). rewrite Em. cbn [bind]. fold L in Sm, Gm. fold rs in Sm, Gm.
+  assert (len mv = prod rs * L) as Lm by (unfold len; rewrite Wm, Sm, prod_app; cbn; lia).
+  unfold ravel. assert (new (elems mv) [len mv] = Ok (mk (elems mv) [len mv])) as ->
+    by (apply new_iff; split; [cbn; unfold len; lia | reflexivity]). cbn [bind]. fold rs.
+  rewrite (split_even_1d dt (mk (elems mv) [len mv]) (prod rs) L None); cbn [shape elems];
+    [| unfold wf; cbn; unfold len; lia | now rewrite Lm | exact Hp | exact HL | now left]. cbn [bind].
+  (* every chunk is a valid lane *)
+  assert (forall x, In x (map (chunk (elems mv) L) (seq 0 (prod rs))) -> f x = Ok (fr x)) as Fok.
+  { intros x Hx. apply in_map_iff in Hx as (j & <- & Hj). apply in_seq in Hj.
+    apply F; [|reflexivity]. unfold wf, chunk. cbn. rewrite firstn_length, skipn_length. unfold len in Lm. nia. }
+  rewrite (mapM_ok f fr _ Fok). cbn [bind]. rewrite map_map.
+  destruct (prod rs) as [|p'] eqn:Ep; [lia|]. rewrite <- Ep in *. clear p' Ep.
+  remember (map (fun j => fr (chunk (elems mv) L j)) (seq 0 (prod rs))) as results eqn:Er.
+  assert (length results = prod rs) as Lres by (rewrite Er, map_length, seq_length; reflexivity).
+  assert (forall x, In x results -> length (elems x) = m) as Um.
+  { intros x Hx. rewrite Er in Hx. apply in_map_iff in Hx as (j & <- & Hj). apply in_seq in Hj.
+    apply F; [|reflexivity]. unfold wf, chunk. cbn. rewrite firstn_length, skipn_length. unfold len in Lm. nia. }
+  destruct results as [|first rest_results] eqn:Eres; [cbn in Lres; lia|]. rewrite <- Eres in *.
+  assert (len first = m) as Lf by (apply Um; rewrite Eres; now left).
+  rewrite flat_arr_ok. cbn [bind]. rewrite Lf.
+  assert (upd (shape mv) (ndim a - 1) m = rs ++ [m]) as ->.
+  { rewrite Sm. rewrite <- Lrs. clear. induction rs as [|h t IH]; cbn; [reflexivity | now rewrite IH]. }
+  pose proof (length_flat_map_uniform (@elems U) results m Um) as Lfm.
+  unfold reshape. cbn [elems].
+  assert (new (flat_map (@elems U) results) (rs ++ [m]) = Ok (mk (flat_map (@elems U) results) (rs ++ [m]))) as ->
+    by (apply new_iff; split; [rewrite Lfm, Lres, prod_app; cbn; lia | reflexivity]). cbn [bind].
+  set (b := mk (flat_map (@elems U) results) (rs ++ [m])).
+  assert (wf b) as Wb by (unfold wf, b; cbn [elems shape]; rewrite Lfm, Lres, prod_app; cbn; lia).
+  assert (ndim b = ndim a) as Nb by (unfold b; unfold ndim in *; cbn [shape]; rewrite app_length; cbn [length]; lia).
+  rewrite <- Nb. destruct (move_from_last du b ax Wb ltac:(lia) ltac:(lia)) as (R & ER & WR & SR & GR).
+  exists R. split; [exact ER|]. split; [exact WR|].
+  assert (shape R = upd (shape a) ax m) as ShR.
+  { rewrite SR. unfold b. cbn [shape]. rewrite removelast_last, last_last. symmetry. apply upd_as_insert_remove. exact H. }
+  split; [exact ShR|].
+  intros c Hc. rewrite ShR in Hc. rewrite upd_as_insert_remove in Hc by exact H. fold rs in Hc.
+  pose proof (in_range_length _ _ Hc) as Lc. rewrite insert_nth_length in Lc.
+  assert (ax < length c) as Hax by (unfold ndim in *; lia).
+  assert (in_range rs (remove_nth c ax)) as Hrest.
+  { apply (in_range_remove _ _ ax) in Hc. rewrite remove_insert_nth' in Hc by (unfold ndim in *; lia). exact Hc. }
+  assert (nth ax c 0 < m) as Hk by (apply (in_range_insert_nth_lt rs c ax m); [lia | exact Hc]).
+  specialize (GR (remove_nth c ax ++ [nth ax c 0])). unfold b in GR at 1. cbn [shape] in GR.
+  rewrite removelast_last, last_last in GR. rewrite insert_remove_nth in GR by exact Hax.
+  rewrite GR by (apply in_range_snoc; assumption).
+  unfold get, b. cbn [shape elems]. rewrite flat_snoc by (apply in_range_length; exact Hrest).
+  rewrite (nth_flat_map_uniform (@elems U) results m _ _ first du Um)
+    by (rewrite ?Lres; auto; apply flat_lt; exact Hrest).
+  f_equal. f_equal. rewrite Er.
+  rewrite (nth_indep _ first (fr (chunk (elems mv) L 0))) by (rewrite map_length, seq_length; apply flat_lt; exact Hrest).
+  rewrite (map_nth (fun j => fr (chunk (elems mv) L j))), seq_nth by (apply flat_lt; exact Hrest). cbn [Nat.add].
+  f_equal. unfold L, rs. rewrite (chunk_is_lane a mv ax) by (auto; apply flat_lt; exact Hrest).
+  f_equal. apply unravel_flat. exact Hrest.
+Qed.
+
+End AlongMain.
+
+(* ---------- corollaries: scans, reductions, counting/searching along an axis ---------- *)
+Lemma prod_insert_nth l ax d : prod (insert_nth l ax d) = d * prod l.
+Proof. revert ax; induction l as [|h t IH]; intros [|ax]; cbn; try lia. rewrite IH. lia. Qed.
+
+Lemma flat_insert_unit rs rest ax : ax <= length rs -> length rest = length rs ->
+  flat (insert_nth rs ax 1) (insert_nth rest ax 0) = flat rs rest.
+Proof.
+  revert rest ax; induction rs as [|h t IH]; intros [|i c] [|ax] Q L; cbn in *; try lia.
+  rewrite prod_insert_nth, IH by lia. lia.
+Qed.
+
+Lemma upd_same {A} (l : list A) ax d : ax < length l -> upd l ax (nth ax l d) = l.
+Proof. revert ax; induction l as [|h t IH]; intros [|ax] H; cbn in *; try lia; auto. f_equal. apply IH. lia. Qed.
+
+Lemma remove_nth_upd {A} (l : list A) ax x : remove_nth (upd l ax x) ax = remove_nth l ax.
+Proof. revert ax; induction l as [|h t IH]; intros [|ax]; cbn; auto. f_equal. apply IH. Qed.
+
+Section AlongCorollaries.
+Context {T : Type} (dt : T).
+
+(* SCANS: the result has the input's shape and, along every lane, is the 1-D scan of that lane *)
+Theorem scan_axis_spec (g : list T -> list T) (a : arr T) z :
+  wf a -> pos_shape (shape a) -> (Z.of_nat (ndim a) < two64)%Z -> axis_ok (ndim a) z ->
+  (forall l, length (g l) = length l) ->
+  let ax := norm_nat (ndim a) z in
+  exists R, scan dt g a (Some z) = Ok R /\ wf R /\ shape R = shape a /\
+    forall c, in_range (shape a) c ->
+      get dt R c = nth (nth ax c 0) (g (elems (lane dt a ax (remove_nth c ax)))) dt.
+Proof.
+  intros W P B Hz Hg ax. destruct (normalize_axis_ok _ _ B Hz) as [En Lax]. fold ax in En, Lax.
+  unfold scan. rewrite En. destruct (Z.ltb_spec (Z.of_nat ax) (Z.of_nat (ndim a))); [|lia]. cbn [guard bind]. rewrite Nat2Z.id.
+  destruct (apply_along_axis_spec dt dt a ax (scan1 g) (fun ln => mk (g (elems ln)) [len ln]) (nth ax (shape a) 0) W P Lax B)
+    as (R & E & WR & SR & GR).
+  { intros ln Wl Sl. split.
+    - unfold scan1. rewrite ravel_ok. cbn [bind elems shape]. rewrite flat_arr_ok. cbn [bind].
+      apply reshape_iff. cbn. unfold len. rewrite Hg. lia.
+    - unfold len. cbn [elems]. rewrite Hg, Wl, Sl. cbn. lia. }
+  exists R. split; [exact E|]. split; [exact WR|].
+  assert (shape R = shape a) as S' by (rewrite SR; apply upd_same; exact Lax).
+  split; [exact S'|]. intros c Hc. rewrite <- S' in Hc. rewrite (GR c Hc). reflexivity.
+Qed.
+
+(* REDUCTIONS: rank > 1 removes the axis; the element at `rest` is the 1-D reduction of the lane at `rest` *)
+Theorem reduce_axis_spec (g1 : list T -> res T) (h : list T -> T) (a : arr T) z :
+  wf a -> pos_shape (shape a) -> (Z.of_nat (ndim a) < two64)%Z -> axis_ok (ndim a) z ->
+  let ax := norm_nat (ndim a) z in
+  (forall l, length l = nth ax (shape a) 0 -> g1 l = Ok (h l)) ->
+  exists R, reduce dt g1 a (Some z) = Ok R /\ wf R /\
+    (1 < ndim a -> shape R = remove_nth (shape a) ax /\
+        forall rest, in_range (shape R) rest -> get dt R rest = h (elems (lane dt a ax rest))) /\
+    (ndim a = 1 -> R = mk [h (elems a)] [1]).
+Proof.
+  intros W P B Hz ax Hg. destruct (normalize_axis_ok _ _ B Hz) as [En Lax]. fold ax in En, Lax.
+  unfold reduce, reduce_axis. rewrite En. destruct (Z.ltb_spec (Z.of_nat ax) (Z.of_nat (ndim a))); [|lia]. cbn [guard bind]. rewrite Nat2Z.id.
+  destruct (apply_along_axis_spec dt dt a ax (fun ln => let* v := g1 (elems ln) in single v)
+              (fun ln => mk [h (elems ln)] [1]) 1 W P Lax B) as (R & E & WR & SR & GR).
+  { intros ln Wl Sl. split; [|reflexivity]. rewrite Hg by (rewrite Wl, Sl; cbn; lia). reflexivity. }
+  rewrite E. cbn [bind].
+  assert (ndim R = ndim a) as NR by (unfold ndim; rewrite SR; apply upd_length).
+  rewrite NR. destruct (Nat.ltb_spec 1 (ndim a)) as [G1|L1].
+  - assert (length (elems R) = prod (remove_nth (shape R) ax)) as LenR.
+    { rewrite WR, SR, remove_nth_upd. rewrite (prod_remove_nth (upd (shape a) ax 1) ax) by (rewrite upd_length; exact Lax).
+      rewrite nth_upd_eq by exact Lax. rewrite remove_nth_upd. lia. }
+    eexists. split; [apply reshape_iff; unfold len; symmetry; exact LenR|]. split; [unfold wf; cbn [elems shape]; exact LenR|].
+    split; [|intros; lia]. intros _. cbn [shape]. rewrite SR, remove_nth_upd. split; [reflexivity|].
+    intros rest Hr. pose proof (in_range_length _ _ Hr) as Lr.
+    assert (length (remove_nth (shape a) ax) = ndim a - 1) as Lrs by (apply remove_nth_length; exact Lax).
+    specialize (GR (insert_nth rest ax 0)).
+    rewrite SR, upd_as_insert_remove in GR by exact Lax.
+    rewrite remove_insert_nth', nth_insert_nth_eq in GR by lia. cbn [elems nth] in GR.
+    rewrite <- GR by (apply in_range_insert; [lia | exact Hr | lia]).
+    unfold get. cbn [shape elems]. rewrite SR, upd_as_insert_remove by exact Lax.
+    rewrite flat_insert_unit by lia. reflexivity.
+  - eexists. split; [apply reshape_iff; unfold len; symmetry; exact WR|]. split; [exact WR|]. split; [intros; lia|].
+    intros N1. destruct R as [eR sR]. cbn [shape elems] in *.
+    assert (ax = 0) as A0 by lia. destruct (shape a) as [|d0 [|? ?]] eqn:Sa; unfold ndim in N1; rewrite ?Sa in N1; cbn in N1; try lia.
+    rewrite A0 in *. cbn [upd] in SR. subst sR.
+    assert (length eR = 1) as L1' by (unfold wf in WR; cbn in WR; lia).
+    destruct eR as [|e0 [|? ?]]; cbn in L1'; try lia. f_equal. f_equal.
+    assert (in_range [1] [0]) as IR by (cbn; lia).
+    pose proof (GR [0] IR) as G0. unfold get in G0. cbn [shape elems flat prod remove_nth nth Nat.mul Nat.add] in G0.
+    rewrite G0. f_equal. unfold lane. rewrite Sa. cbn [nth elems insert_nth].
+    etransitivity; [|apply (map_nth_seq (elems a) dt)]. unfold wf in W. rewrite W, Sa. cbn [prod]. rewrite Nat.mul_1_r.
+    apply map_ext. intros k. unfold get. rewrite Sa. cbn [flat prod]. f_equal. lia.
+Qed.
+
+End AlongCorollaries.
+
+Section IndexReduceSpec.
+Context {T U : Type} (dt : T) (du : U).
+
+(* COUNTING / SEARCHING along an axis (count_nonzero, argmax, argmin): with keepdims the axis stays with extent 1,
+   without it the axis is removed; the entry for the remaining coordinates `rest` is the 1-D result on that lane *)
+Theorem index_reduce_axis_spec (g1 : list T -> res U) (h : list T -> U) (a : arr T) z keepdims :
+  wf a -> pos_shape (shape a) -> (Z.of_nat (ndim a) < two64)%Z -> axis_ok (ndim a) z ->
+  let ax := norm_nat (ndim a) z in
+  (forall l, length l = nth ax (shape a) 0 -> g1 l = Ok (h l)) ->
+  exists R, index_reduce dt du g1 a (Some z) keepdims = Ok R /\ wf R /\
+    shape R = (if keepdims then upd (shape a) ax 1 else remove_nth (shape a) ax) /\
+    forall rest, in_range (remove_nth (shape a) ax) rest ->
+      get du R (if keepdims then insert_nth rest ax 0 else rest) = h (elems (lane dt a ax rest)).
+Proof.
+  intros W P B Hz ax Hg. destruct (normalize_axis_ok _ _ B Hz) as [En Lax]. fold ax in En, Lax.
+  unfold index_reduce. rewrite En. destruct (Z.ltb_spec (Z.of_nat ax) (Z.of_nat (ndim a))); [|lia]. cbn [guard bind]. rewrite Nat2Z.id.
+  destruct (apply_along_axis_spec dt du a ax (fun ln => let* v := g1 (elems ln) in single v)
+              (fun ln => mk [h (elems ln)] [1]) 1 W P Lax B) as (R & E & WR & SR & GR).
+  { intros ln Wl Sl. split; [|reflexivity]. rewrite Hg by (rewrite Wl, Sl; cbn; lia). reflexivity. }
+  rewrite E. cbn [bind].
+  assert (length (remove_nth (shape a) ax) = ndim a - 1) as Lrs by (apply remove_nth_length; exact Lax).
+  assert (forall rest, in_range (remove_nth (shape a) ax) rest ->
+            get du R (insert_nth rest ax 0) = h (elems (lane dt a ax rest))) as GK.
+  { intros rest Hr. pose proof (in_range_length _ _ Hr) as Lr. specialize (GR (insert_nth rest ax 0)).
+    rewrite SR, upd_as_insert_remove in GR by exact Lax.
+    rewrite remove_insert_nth', nth_insert_nth_eq in GR by lia. cbn [elems nth] in GR.
+    apply GR. apply in_range_insert; [lia | exact Hr | lia]. }
+  destruct keepdims.
+  - exists R. split; [reflexivity|]. split; [exact WR|]. split; [exact SR|]. exact GK.
+  - assert (length (elems R) = prod (remove_nth (shape a) ax)) as LenR.
+    { rewrite WR, SR. rewrite (prod_remove_nth (upd (shape a) ax 1) ax) by (rewrite upd_length; exact Lax).
+      rewrite nth_upd_eq by exact Lax. rewrite remove_nth_upd. lia. }
+    eexists. split; [apply reshape_iff; unfold len; symmetry; exact LenR|].
+    split; [unfold wf; cbn [elems shape]; exact LenR|]. split; [reflexivity|].
+    intros rest Hr. pose proof (in_range_length _ _ Hr) as Lr. rewrite <- (GK rest Hr).
+    unfold get. cbn [shape elems]. rewrite SR, upd_as_insert_remove by exact Lax.
+    rewrite flat_insert_unit by lia. reflexivity.
+Qed.
+
+End IndexReduceSpec.
